@@ -12,6 +12,8 @@ import Flowjaxv.Driver.Families
 import Flowjaxv.Driver.Bisection
 import Flowjaxv.Driver.Train
 import Flowjaxv.Driver.Vectorize
+import Flowjaxv.Driver.TraceDrv
+import Flowjaxv.Driver.Losses
 /-!
 Model driver: `lake env lean --run Driver.lean < ops.txt`.  One op per line in, one line out
 (`ERR <msg>` when the model rejects the op).
@@ -71,6 +73,13 @@ def dispatch (line : String) : String :=
       | "keyshape" => keyshape args
       | "pair" => pair args
       | "checkshapes" => checkshapes args
+      | "tracesafe" => tracesafe args
+      | "tracetable" => tracetable args
+      | "fieldkind" => fieldkind args
+      | "mle" => mle args
+      | "elbo" => elbo args
+      | "cidx" => cidx args
+      | "contrastive" => contrastive args
       | "ctor" => ctor args
       | "permute" => permute args
       | "permvalid" => permvalid args
